@@ -220,7 +220,14 @@ func checkAllocators(c *Ctx, rule string) {
 			}
 			n++
 			r := rp.Results[0]
-			ok := r.Op == "binop" && r.Name == "+" && r.Args[0].String() == "recv.basePacketID" && r.Args[1].String() == "conv[uint16](param:ttl)"
+			ok := true
+			for _, r := range expandHelperResults(c.P, r) {
+				isBase := func(t *core.Term) bool { return t.String() == "recv.basePacketID" }
+				isTTL := func(t *core.Term) bool { return t.String() == "conv[uint16](param:ttl)" }
+				if !(r.Op == "binop" && r.Name == "+" && (isBase(r.Args[0]) && isTTL(r.Args[1]) || isBase(r.Args[1]) && isTTL(r.Args[0]))) {
+					ok = false
+				}
+			}
 			R.Check(ok, rule, "tcp.getNextPacketIDAndSeqNum#id", rp.Ret.Pos(), core.FuncName(g), "default-mode IP-ID = basePacketID + uint16(ttl)", "default-mode IP-ID is "+r.String())
 		}
 		R.Floor(rule+":syn-id-paths", n, 1)
@@ -558,4 +565,46 @@ func constFalseField(c *Ctx, structT types.Type, field int) bool {
 	}
 	constFieldCache[k] = res
 	return res
+}
+
+// expandHelperResults: a call of a multi-block module helper is replaced by its per-path results (parameters substituted by the
+// arguments) when the path conditions do not mention the ttl; anything else is returned unchanged.
+func expandHelperResults(p *core.Prog, t *core.Term) []*core.Term {
+	if t.Op != "call" {
+		return []*core.Term{t}
+	}
+	g := p.Func(t.Name)
+	if g == nil || len(g.Blocks) == 0 || len(g.Params) != len(t.Args) {
+		return []*core.Term{t}
+	}
+	rps, ok := core.ReturnPaths(p, g, 200)
+	if !ok || len(rps) == 0 {
+		return []*core.Term{t}
+	}
+	sub := func(x *core.Term) *core.Term {
+		if x.Op == "param" {
+			for i, pa := range g.Params {
+				if pa.Name() == x.Name {
+					return t.Args[i]
+				}
+			}
+		}
+		return nil
+	}
+	var out []*core.Term
+	for _, rp := range rps {
+		if !core.Feasible(rp.Atoms) || len(rp.Results) != 1 {
+			continue
+		}
+		for _, a := range rp.Atoms {
+			if mentionsTTL(a.Cond.Subst(sub)) {
+				return []*core.Term{t}
+			}
+		}
+		out = append(out, expandHelperResults(p, rp.Results[0].Subst(sub))...)
+	}
+	if len(out) == 0 {
+		return []*core.Term{t}
+	}
+	return out
 }
